@@ -30,11 +30,11 @@ func textOf(n *html.Node) string {
 	return sb.String()
 }
 
-func elemKids(n *html.Node) []*html.Node {
+func elemKids(n *html.Node, reg string, o Options) []*html.Node {
 	var out []*html.Node
 	for c := n.FirstChild; c != nil; c = c.NextSibling {
 		if c.Type == html.ElementNode {
-			if droppableEmpty(c) {
+			if droppableEmpty(c, reg, o) {
 				continue
 			}
 			out = append(out, c)
@@ -44,8 +44,15 @@ func elemKids(n *html.Node) []*html.Node {
 }
 
 // an attribute-less empty script/style element has no effect; the minifier removes it.
-func droppableEmpty(c *html.Node) bool {
-	return c.Namespace == "" && (c.Data == "script" || c.Data == "style") && len(c.Attr) == 0 && c.FirstChild == nil
+func droppableEmpty(c *html.Node, reg string, o Options) bool {
+	// with real sub-minifiers the content may legitimately minify to nothing, and content is not compared anyway
+	if c.Namespace != "" || c.Data != "script" && c.Data != "style" {
+		return false
+	}
+	if !(c.FirstChild == nil || reg == "real") {
+		return false
+	}
+	return len(c.Attr) == 0 || len(normAttrs(c, o, reg, true)) == 0
 }
 
 func dumpForeign(n *html.Node) string {
@@ -137,7 +144,7 @@ func checkStubs(c *Case, rec *recorder, ta, tb []*html.Node) (sig, obs, exp stri
 		if done {
 			return
 		}
-		ka, kb := elemKids(a), elemKids(b)
+		ka, kb := elemKids(a, c.Registry, c.Opts), elemKids(b, c.Registry, c.Opts)
 		if len(ka) != len(kb) {
 			return // cannot happen after the structure check
 		}
@@ -163,7 +170,7 @@ func checkStubs(c *Case, rec *recorder, ta, tb []*html.Node) (sig, obs, exp stri
 				cl := (*calls)[0]
 				*calls = (*calls)[1:]
 				avail[key(cl.MT, cl.Inline, cl.In)]--
-				if !strings.Contains(c.Input, cl.In) {
+				if !strings.Contains(strings.ToLower(c.Input), strings.ToLower(cl.In)) {
 					fail("stub-payload-changed:"+ea.Data+"-element", cl.In, "a substring of the input")
 					return
 				}
@@ -242,6 +249,11 @@ func checkStubs(c *Case, rec *recorder, ta, tb []*html.Node) (sig, obs, exp stri
 				if !isStyle && !isOn {
 					continue
 				}
+				ov, present := attrOf(eb, at.Key)
+				cls := "style-attr"
+				if isOn {
+					cls = "event-attr"
+				}
 				p := asciiTrim(at.Val)
 				mt := "text/css"
 				if isOn {
@@ -250,12 +262,16 @@ func checkStubs(c *Case, rec *recorder, ta, tb []*html.Node) (sig, obs, exp stri
 						p = p[11:]
 					}
 				}
-				ov, present := attrOf(eb, at.Key)
-				cls := "style-attr"
-				if isOn {
-					cls = "event-attr"
+				if c.Opts.TemplateDelims && strings.Contains(at.Val, "{{") {
+					// "preserve context within and surrounding the given delimiters": passed through untouched
+					if !present || ov != at.Val {
+						fail("passthrough-changed:"+cls+":template-action", ov, at.Val)
+						return
+					}
+					continue
 				}
 				if p == "" {
+					consume(mt, true, "") // the minifier may or may not be consulted for an empty payload
 					if present && asciiTrim(ov) != "" {
 						fail("passthrough-changed:"+cls+":empty", ov, "(absent or empty)")
 						return
